@@ -794,10 +794,11 @@ class Parser:
         if isinstance(tree, ast.Constant) and isinstance(cmd, TokenInfo):
             return ast.Constant(value=tree.value + cmd.string, **locs, **cmd.loc_end())
 
-        # prefix@(...)
-        if isinstance(tree, ast.Constant) and isinstance(cmd, ast.Starred):
+        # prefix@(...): the prefix may be a word, $NAME, a nested subprocess ... - a starred part cannot be an operand of "+"
+        if isinstance(cmd, ast.Starred):
+            elts = [*tree.elts, cmd] if isinstance(tree, ast.Tuple) else [tree, cmd]
             return ast.Tuple(
-                elts=[tree, cmd],
+                elts=elts,
                 ctx=Load,
                 **locs,
                 end_lineno=cmd.end_lineno,
@@ -808,6 +809,10 @@ class Parser:
             suffix = ast.Constant(value=cmd.string, **cmd.loc())
             elts = [*tree.elts, suffix] if isinstance(tree, ast.Tuple) else [tree, suffix]
             return ast.Tuple(elts=elts, ctx=Load, **locs, **cmd.loc_end())
+        # @(...)$NAME, @(...)$(cmd)
+        if isinstance(tree, ast.Starred | ast.Tuple):
+            elts = [*tree.elts, cmd] if isinstance(tree, ast.Tuple) else [tree, cmd]
+            return ast.Tuple(elts=elts, ctx=Load, **locs, end_lineno=cmd.end_lineno, end_col_offset=cmd.end_col_offset)
         # prefix@(...)suffix
         if isinstance(tree, ast.Tuple) and isinstance(cmd, TokenInfo):
             return ast.Tuple(
